@@ -2,7 +2,7 @@
    [all_msgs], [nas_types], the dispatch tables are regenerated from /repo on every run;
    [decode_def] is the meaning of the generator template (Codec/Sem.v), tied to the Go code by
    the canonical-program check below and by the correspondence run. *)
-From NV Require Import Lib.Base Codec.Lang Codec.Def Codec.Sem Codec.Total Codec.Dispatch Codec.DispatchProofs Codec.Final
+From NV Require Import Lib.Base Codec.Lang Codec.Def Codec.Sem Codec.Total Codec.Dispatch Codec.DispatchProofs Codec.GenDefs Codec.Final
   Gen.GenMsgs Gen.GenTypes Gen.GenDispatch.
 From Coq Require Import String.
 Open Scope N_scope.
